@@ -154,5 +154,15 @@ PROPS["C07"] = {
     "note": "_get_dotted_tokens (split/join) is abstract; visitors over import statements, sorting and text rewriting are not under contract.",
     "undecided": ["FilteringVisitor / AddingVisitor / remove_duplicates", "relative->absolute and long-import handling for all modules"],
 }
+PROPS["C08"] = {
+    "sidecars": ["c08_source.py"],
+    "level": "proof",
+    "claim": "Proof level for the token-consumption kernel the annotating walker is built on: _Source.consume returns a range at or after the cursor that holds "
+             "exactly the token text and leaves the cursor right after it (or raises MismatchedTokenError), _good_token is true exactly when the position is not "
+             "inside a comment of the skipped text (two-sided, existential specification), _skip_comment advances to the next newline, consume_joined_string likewise "
+             "-- for every source and token.  Losslessness and region exactness of whole trees are a bounded stand-in over a fixed corpus.",
+    "note": "the ~100 node templates of _PatchingASTWalker, parenthesis handling and the regex-based string/number consumers are not under contract.",
+    "undecided": ["losslessness for every valid module", "region exactness for every node class"],
+}
 _NB = "check not built yet (framework under construction; see DESIGN.md section 8)"
 NOT_APPLICABLE = {"C%02d" % i: _NB for i in range(1, 21)}
